@@ -74,7 +74,7 @@ func TestGossipOnlyRapid(t *testing.T) {
 				}
 			}
 			for s := 0; s < steps; s++ {
-				switch rapid.IntRange(0, 5).Draw(rt, "op") {
+				switch rapid.IntRange(0, 7).Draw(rt, "op") {
 				case 0, 1, 2:
 					idx := rapid.IntRange(0, len(ids)-1).Draw(rt, "instance")
 					home := idx % n
@@ -103,6 +103,23 @@ func TestGossipOnlyRapid(t *testing.T) {
 					deliverAll(from, limit)
 				case 4:
 					time.Sleep(time.Duration(rapid.IntRange(0, 2000).Draw(rt, "ms")) * time.Millisecond)
+				case 5:
+					// one update about several entities: a new partition together with its owner
+					p := int32(rapid.IntRange(3, 6).Draw(rt, "newPartition"))
+					home := int(p) % n
+					hist = append(hist, fmt.Sprintf("cas partition %d + owner on node %d", p, home))
+					_ = c.PRingC[home].CAS(context.Background(), gossip.PRingKey, func(in interface{}) (interface{}, bool, error) {
+						d := ring.GetOrCreatePartitionRingDesc(in)
+						if d.HasPartition(p) {
+							return nil, false, nil
+						}
+						d.AddPartition(p, ring.PartitionPending, time.Now())
+						pd := d.Partitions[p]
+						pd.Tokens = pd.Tokens[:3]
+						d.Partitions[p] = pd
+						d.AddOrUpdateOwner(fmt.Sprintf("owner-%d", p), ring.OwnerActive, p, time.Now())
+						return d, true, nil
+					})
 				default:
 					p := int32(rapid.IntRange(0, 2).Draw(rt, "partition"))
 					home := int(p) % n
@@ -167,8 +184,10 @@ func TestInvalidatesRapid(t *testing.T) {
 		names := []string{"a", "b", "c", "d"}
 		key := rapid.SampledFrom([]string{"ring", "pring"}).Draw(rt, "key")
 		oldKey := rapid.SampledFrom([]string{"ring", "pring"}).Draw(rt, "oldKey")
-		content := rapid.SliceOfNDistinct(rapid.SampledFrom(names), 0, 4, func(s string) string { return s }).Draw(rt, "content")
-		oldContent := rapid.SliceOfNDistinct(rapid.SampledFrom(names), 0, 4, func(s string) string { return s }).Draw(rt, "oldContent")
+		// MergeContent lists may repeat names (the partition ring's starts with one empty string per entry)
+		pool := append([]string{"", ""}, names...)
+		content := rapid.SliceOfN(rapid.SampledFrom(pool), 0, 6).Draw(rt, "content")
+		oldContent := rapid.SliceOfN(rapid.SampledFrom(pool), 0, 5).Draw(rt, "oldContent")
 		version := uint(rapid.IntRange(0, 5).Draw(rt, "version"))
 		oldVersion := uint(rapid.IntRange(0, 5).Draw(rt, "oldVersion"))
 		got := memberlist.VerifBroadcastInvalidates(key, content, version, oldKey, oldContent, oldVersion)
